@@ -1064,6 +1064,11 @@ static uint64_t atomic_core(AK k, uintptr_t a, int size, uint64_t v, uint64_t* e
     g.trace_hash = mix64(g.trace_hash, (uint64_t(me->id) << 56) ^ (a << 8) ^ v ^ 0x5555);
     TRACE("  %6lu T%d store%d %p <- %#lx mo=%d\n", (unsigned long)g.steps, me->id, size * 8, (void*)a, (unsigned long)v, mo);
     own_write(me, a);
+    // a new epoch starts AFTER a (potentially releasing) write: what this thread does next is not covered by the view
+    // the message carries.  (Without this tick a plain access between a release and the thread's next visible operation
+    // had the epoch of the release and passed for ordered before it - a miss of the race detector, seed C13c.)
+    me->vc.c[me->id]++;
+    me->vis.c[me->id] = me->vc.c[me->id];
     return 0;
   }
   // read-modify-write (CAS included)
@@ -1150,6 +1155,8 @@ static uint64_t atomic_core(AK k, uintptr_t a, int size, uint64_t v, uint64_t* e
         (unsigned long)old, (unsigned long)nv, mo);
   if (nv == old) after_observation(me, pc, a, old); // value-preserving RMW (test-and-set spinning): an observation
   else own_write(me, a);
+  me->vc.c[me->id]++; // new epoch after the write (see the store case)
+  me->vis.c[me->id] = me->vc.c[me->id];
   return old;
 }
 
@@ -1177,6 +1184,8 @@ static void fence_core(int mo) {
     me->fence_rel_vis = me->vis;
     me->fence_rel_sc_seen = me->sc_seen;
     me->has_fence_rel = true;
+    me->vc.c[me->id]++; // new epoch after the release fence: later accesses are not part of what a later relaxed store publishes
+    me->vis.c[me->id] = me->vc.c[me->id];
   }
   TRACE("  %6lu T%d fence mo=%d\n", (unsigned long)g.steps, me->id, mo);
 }
@@ -1412,6 +1421,8 @@ static int model_mutex_unlock(const void* m) {
   r->vc = me->vc;
   r->vis = me->vis;
   r->sc_seen = me->sc_seen;
+  me->vc.c[me->id]++; // new epoch after the unlock: what follows is not ordered before the next lock of another thread
+  me->vis.c[me->id] = me->vc.c[me->id];
   for (int i = 0; i < g.nth; i++)
     if (g.th[i].state == TS_BLOCKED_MUTEX && g.th[i].mutex_wait == m) g.th[i].state = TS_RUNNABLE;
   g.gwrites++;
